@@ -1,4 +1,5 @@
 SPECIFICATION Spec
 INVARIANT OneRunner
+CONSTRAINT MarkC
 POSTCONDITION Accepted
 CHECK_DEADLOCK FALSE
